@@ -1773,12 +1773,40 @@ func aprConcurrentCleanups(r *h.Report, rounds int) {
 	}
 	hit := map[string]int{}
 	ctr := 20
+	// how long the stack takes from the arrival of a removal announcement to its end (no verdicts around): the
+	// verdicts are released somewhere inside that span
+	var lat []time.Duration
+	for e := uint(4); e <= 5; e++ {
+		ctr++
+		dg := aprRemovedNotify(0, e, ctr)
+		t0 := time.Now()
+		if !call(func() { w.inject(0, dg) }) {
+			fail(key, "an entity removal announcement was not processed (no write pending)")
+			return
+		}
+		lat = append(lat, time.Since(t0))
+	}
+	span := lat[0]
+	if lat[1] < span {
+		span = lat[1]
+	}
+	if span > 3*time.Millisecond {
+		span = 3 * time.Millisecond
+	}
+	if !call(func() { w.drop(0) }) || !call(func() { w.connect(0) }) || !w.bound(0) {
+		fail(key, "the peer could not connect again after the calibration")
+		return
+	}
+	ctr = 20
 	for round := 0; round < rounds; round++ {
-		mode := []string{"other-entity", "other-entity", "writers-entity", "disconnect"}[round%4]
+		mode := []string{"other-entity", "writers-entity", "writers-entity", "disconnect"}[round%4]
 		ops = []string{"cfg 3 1", fmt.Sprintf("concurrent-cleanup %s round %d", mode, round)}
 		res := &aprResult{shapes: map[string]int{}}
 		x := &aprRun{w: w, res: res, looks: map[int]*aprLook{}}
 		nW := 3 + rng.Intn(4)
+		if mode == "writers-entity" {
+			nW = 24 + rng.Intn(8) // a longer clean-up loop (one iteration per pending write of the entity) and a longer burst of verdicts
+		}
 		var wrs []*aprWrite
 		for i := 0; i < nW; i++ {
 			ctr++
@@ -1813,12 +1841,19 @@ func aprConcurrentCleanups(r *h.Report, rounds int) {
 			}
 		}
 		// the clean-up on its own goroutine, the verdicts released around it
-		lead := time.Duration(rng.Intn(250)) * time.Microsecond
+		lead := time.Duration(rng.Int63n(int64(span) + 1))
+		gap := time.Duration(rng.Int63n(int64(span)/int64(2*len(tasks)) + 1)) // the verdicts spread over up to half the span
+		if round%2 == 1 {
+			lead = span/2 + time.Duration(rng.Int63n(int64(span)/2+1)) // the clean-up of the approvals comes last in a removal
+		}
+		if mode == "writers-entity" {
+			gap = 0 // releasing ~50 parked goroutines one after the other is spread enough
+		}
 		var clean *h.Task
 		switch mode {
 		case "other-entity":
 			ctr++
-			dg := aprRemovedNotify(0, uint(2+(round/4)%4), ctr)
+			dg := aprRemovedNotify(0, uint(2+(round/4)%2), ctr)
 			clean = h.Go(func() { w.inject(0, dg) })
 		case "writers-entity":
 			ctr++
@@ -1830,6 +1865,7 @@ func aprConcurrentCleanups(r *h.Report, rounds int) {
 		aprSpin(lead)
 		for _, t := range tasks {
 			t.Release()
+			aprSpin(gap)
 		}
 		stuck := 0
 		for _, t := range tasks {
@@ -1866,7 +1902,7 @@ func aprConcurrentCleanups(r *h.Report, rounds int) {
 					if got == "" {
 						k = "C12/no-outcome"
 					}
-					fail(k, fmt.Sprintf("round %d: write %d of the peer (3 callbacks: two approvals committed while the peer's entity %d was announced as removed, then callback 2 %s): expected %s, observed [%s]", round, wr.c, 2+(round/4)%4, map[bool]string{true: "approved", false: "denied"}[approve], want, got))
+					fail(k, fmt.Sprintf("round %d: write %d of the peer (3 callbacks: two approvals committed while the peer's entity %d was announced as removed, then callback 2 %s): expected %s, observed [%s]", round, wr.c, 2+(round/4)%2, map[bool]string{true: "approved", false: "denied"}[approve], want, got))
 					return
 				}
 			}
@@ -1897,7 +1933,7 @@ func aprConcurrentCleanups(r *h.Report, rounds int) {
 		ctr = 20
 		r.Eval("concurrent-cleanup:"+mode, "")
 	}
-	r.Info["concurrent_cleanups"] = fmt.Sprintf("%d rounds (verdict goroutines released together with an entity removal / a disconnect): %v", rounds, hit)
+	r.Info["concurrent_cleanups"] = fmt.Sprintf("%d rounds (verdict goroutines released inside the %v an entity removal takes / around a disconnect): %v", rounds, span, hit)
 }
 
 // ---------- the test
